@@ -51,7 +51,9 @@ package interp
 //@   opt call-guard:gta = old(interp.srcPkg[importPath]) == nil && !old(interp.rdir[importPath])
 //@   opt call-guard:cfg = old(interp.srcPkg[importPath]) == nil && !old(interp.rdir[importPath])
 //@   opt call-guard:run = old(interp.srcPkg[importPath]) == nil && !old(interp.rdir[importPath])
-//@   opt call-guard:effectivePkg = strings.HasPrefix(importPath, "./") && old(rPath) == mainID ==> rPath == "."
+//@   opt call-guard:effectivePkg = (strings.HasPrefix(importPath, "./") && old(rPath) == mainID ==> rPath == ".") && (called(pkgDir) ==> arg(0) == lastRes(pkgDir, 1))
+//@   opt call-guard:ReadDir = called(pkgDir) ==> arg(1) == lastRes(pkgDir, 0)
+//@   opt record-calls = pkgDir
 //@   requires [assume] interp != nil && interp.srcPkg != nil && interp.pkgNames != nil && interp.rdir != nil && interp.frame != nil
 //@   ensures once: old(interp.srcPkg[importPath]) != nil && old(has(interp.pkgNames, importPath)) ==> err == nil && name == old(interp.pkgNames[importPath])
 //@   ensures cycle-is-an-error: old(interp.srcPkg[importPath]) == nil && old(interp.rdir[importPath]) ==> err != nil
